@@ -2,16 +2,19 @@ import AsyncsshModel.Model.SftpIO
 /- Line-protocol driver for the C12 correspondence (see harness/props/C12.py).
 
    read  <strict> <bs> <mr> <start> <size> <ev>*              _SFTPFileReader.run
-   fread <strict> <readLen> <maxReadLen> <mr> <off> <size> <ev>*   SFTPClientFile.read (path choice + transfer)
-   write <bs> <mr> <start> <data> <file0> <wev>*              _SFTPFileWriter.run
-   copy  <ext> <bs> <mr> <total> <sparse> <ranges|-> <ev>*    _SFTPFileCopier.run
-   (<strict>, <ext>: 1 when the tree has the empty-reply check / the sparse extension step, see Gen/C12.lean)
-   fobj  <appending> <readLen> <writeLen> <maxReadLen> <content> <op>*
+   fread <strict> <toEndReader> <toEnd> <readLen> <maxReadLen> <mr> <off> <size> <ev>*
+                                                              SFTPClientFile.read (path choice + transfer)
+   write <eofErr> <writeAll> <bs> <mr> <start> <data> <file0> <wev>*     _SFTPFileWriter.run
+   copy  <ext> <eofErr> <bs> <mr> <total> <sparse> <ranges|-> <ev>*      _SFTPFileCopier.run
+   (<strict>, <ext>, <eofErr>, <writeAll>, <toEndReader>: 1 when the tree has the empty-reply check / the sparse
+    extension step / EOF-status-is-an-error for writes / the write-everything loop of SFTPServer.write /
+    read-to-end through the reader, see Gen/C12.lean)
+   fobj  <appending> <toEndReader> <readLen> <writeLen> <maxReadLen> <content> <op>*
    ranges <limit> <extents|->                                 SEEK_DATA/SEEK_HOLE walk
    rcopy <src> <ranges|->                                     server-side copy-data per range
 
    ev  : d:<off>:<size>:<hex> | e:<off>:<size> | x:<off>:<size> | b
-   wev : o:<off>:<size> | x:<off>:<size> | b
+   wev : o:<off>:<size> | x:<off>:<size> | e:<off>:<size> (FX_EOF status) | s:<off>:<size>:<n> (short write) | b
    op  : r:<size|n>:<off|n> | w:<hex>:<off|n> | ss:<n> | sc:<n> | se:<n> | t
 
    Output of a transfer: the requests issued, grouped per batch (`;` between batches, sorted inside a batch,
@@ -36,11 +39,16 @@ def parseEv (t : String) : Option Ev :=
   | ["x", o, s] => (parseReq o s).map fun r => .complete r .err
   | _ => none
 
-def parseWEv (t : String) : Option WEv :=
+def parseWEv (t : String) : Option WEvX :=
   match splitOn t ':' with
-  | ["b"] => some .endBatch
-  | ["o", o, s] => (parseReq o s).map .ok
-  | ["x", o, s] => (parseReq o s).map .err
+  | ["b"] => some (.base .endBatch)
+  | ["o", o, s] => (parseReq o s).map fun r => .base (.ok r)
+  | ["x", o, s] => (parseReq o s).map fun r => .base (.err r)
+  | ["e", o, s] => (parseReq o s).map .eof
+  | ["s", o, s, n] => do
+    let r ← parseReq o s
+    let n ← n.toNat?
+    pure (.short r n)
   | _ => none
 
 def parsePairs (t : String) : Option (List (Nat × Nat)) :=
@@ -64,19 +72,22 @@ def showBatch (l : List Req) : String :=
 def newReqs (before after : List Req) : List Req := after.filter fun r => !before.contains r
 
 /-- run events, collecting per batch the requests that appeared -/
-def runBatches {σ : Type} (pend : σ → List Req) (raised : σ → Bool) (step : σ → Ev → σ) (s0 : σ)
-    (evs : List Ev) : σ × List (List Req) :=
-  let rec go (s : σ) (cur : List Req) (acc : List (List Req)) : List Ev → σ × List (List Req)
+def runBatchesG {σ ε : Type} (isEnd : ε → Bool) (pend : σ → List Req) (raised : σ → Bool) (step : σ → ε → σ)
+    (s0 : σ) (evs : List ε) : σ × List (List Req) :=
+  let rec go (s : σ) (cur : List Req) (acc : List (List Req)) : List ε → σ × List (List Req)
     | [] => (s, if cur.isEmpty then acc.reverse else (cur :: acc).reverse)
     | e :: rest =>
       let s' := step s e
       let cur' := cur ++ newReqs (pend s) (pend s')
-      match e with
-      | .endBatch =>
+      if isEnd e then
         -- tasks created in a batch that ends by raising are cancelled before they issue their request
         go s' [] ((if raised s' then [] else cur') :: acc) rest
-      | _ => go s' cur' acc rest
+      else go s' cur' acc rest
   go s0 [] [] evs
+
+def runBatches {σ : Type} (pend : σ → List Req) (raised : σ → Bool) (step : σ → Ev → σ) (s0 : σ)
+    (evs : List Ev) : σ × List (List Req) :=
+  runBatchesG (fun e => match e with | .endBatch => true | _ => false) pend raised step s0 evs
 
 def showOutcome : Outcome → String
   | .running => "running"
@@ -94,13 +105,7 @@ def doRead (strict : Bool) (bs mr start size : Nat) (evs : List Ev) : String :=
 
 /-- `SFTPClientFile.read`'s single-request path: one `handler.read(offset, size)`, EOF swallowed -/
 def doSingle (off size : Nat) (evs : List Ev) : String :=
-  let r : Req := ⟨off, size⟩
-  let out := match evs.filter (fun e => match e with | .endBatch => false | _ => true) with
-    | [.complete r' (.data d)] => if r' = r then "ok:" ++ hex d else "running"
-    | [.complete r' .eof] => if r' = r then "ok:-" else "running"
-    | [.complete r' .err] => if r' = r then "raised" else "running"
-    | _ => "running"
-  showReq r ++ " " ++ out
+  showReq ⟨off, size⟩ ++ " " ++ showOutcome (singleRead off size evs)
 
 def showC (ext : Bool) (total : Nat) (sparse : Bool) (ranges : List (Nat × Nat)) (s : CState) : String :=
   (match coutcomeX ext total sparse ranges s with
@@ -142,34 +147,37 @@ def step (_ : Unit) (ws : List String) : Unit × String :=
       match bs.toNat?, mr.toNat?, st.toNat?, sz.toNat?, evs.mapM parseEv with
       | some bs, some mr, some st, some sz, some evs => doRead (strict == "1") bs mr st sz evs
       | _, _, _, _, _ => "bad-op"
-    | "fread" :: strict :: rl :: mrl :: mr :: off :: sz :: evs =>
+    | "fread" :: strict :: ter :: te :: rl :: mrl :: mr :: off :: sz :: evs =>
       match rl.toNat?, mrl.toNat?, mr.toNat?, off.toNat?, sz.toNat?, evs.mapM parseEv with
       | some rl, some mrl, some mr, some off, some sz, some evs =>
-        if readParallel ⟨false, none, rl, 0, mrl⟩ sz then "parallel " ++ doRead (strict == "1") rl mr off sz evs
+        if readParallel ⟨false, none, rl, 0, mrl, ter == "1"⟩ (te == "1") sz then
+          "parallel " ++ doRead (strict == "1") rl mr off sz evs
         else "single " ++ doSingle off sz evs
       | _, _, _, _, _, _ => "bad-op"
-    | "write" :: bs :: mr :: st :: data :: file0 :: evs =>
+    | "write" :: eofErr :: writeAll :: bs :: mr :: st :: data :: file0 :: evs =>
       match bs.toNat?, mr.toNat?, st.toNat?, unhex data, unhex file0, evs.mapM parseWEv with
       | some bs, some mr, some st, some data, some file0, some evs =>
         let s0 := winit bs mr st data file0
-        let (s, batches) := runBatches (fun s => s.io.pending) (fun s => s.io.raised) (fun s e => gstep false bs mr 0 s e) s0
-          (evs.map (wev data st))
+        let (s, batches) := runBatchesG (fun e => match e with | WEvX.base .endBatch => true | _ => false)
+          (fun s => s.io.pending) (fun s => s.io.raised)
+          (wstepX (eofErr == "1") (writeAll == "1") bs mr st data) s0 evs
         showBatches s0.io.pending batches ++ " " ++ showOutcome (goutcome s)
       | _, _, _, _, _, _ => "bad-op"
-    | "copy" :: ext :: bs :: mr :: total :: sparse :: ranges :: evs =>
+    | "copy" :: ext :: eofErr :: bs :: mr :: total :: sparse :: ranges :: evs =>
       match bs.toNat?, mr.toNat?, total.toNat?, parsePairs ranges, evs.mapM parseEv with
       | some bs, some mr, some total, some ranges, some evs =>
         let sp := sparse == "1"
         let rs := if sp then ranges else nonsparseRanges total
         let s0 := cinit bs mr rs
-        let (s, batches) := runBatches (fun s => s.g.io.pending) (fun s => s.g.io.raised) (cstep bs mr) s0 evs
+        let (s, batches) := runBatches (fun s => s.g.io.pending) (fun s => s.g.io.raised) (cstep bs mr) s0
+          (evs.map (cev (eofErr == "1")))
         showBatches s0.g.io.pending batches ++ " " ++ showC (ext == "1") total sp rs s
       | _, _, _, _, _ => "bad-op"
-    | "fobj" :: app :: rl :: wl :: mrl :: content :: ops =>
+    | "fobj" :: app :: ter :: rl :: wl :: mrl :: content :: ops =>
       match rl.toNat?, wl.toNat?, mrl.toNat?, unhex content, ops.mapM parseOp with
       | some rl, some wl, some mrl, some content, some ops =>
         let appending := app == "1"
-        let w : FWorld := ⟨content, ⟨appending, if appending then none else some 0, rl, wl, mrl⟩⟩
+        let w : FWorld := ⟨content, ⟨appending, if appending then none else some 0, rl, wl, mrl, ter == "1"⟩⟩
         let (w', rs) := frun w ops
         String.intercalate "," (rs.map showRes) ++ " " ++ hex w'.content ++ " " ++
           (match w'.obj.offset with | none => "n" | some o => s!"{o}")
